@@ -292,6 +292,11 @@ func planFor(prop string) *PropPlan {
 		p.Rule = "per sample: a seeded pre-state (sequential history) and one mutating command; the command's clean run yields its K visible system calls; EVERY boundary k in 0..K is a kill point, plus kill before the reply, plus torn writes at offsets {1,2,mid,len-2,len-1}+4 seeded offsets per log write (thorough: every offset for lines up to 512 B) and (C03) ENOSPC/EIO/EINTR returns on the fallible calls; evaluations = sweep members executed; a sample is non-trivial when at least one fault fired; distinct = distinct trace digests of samples"
 	case "C06", "C07", "C08", "C09", "C10", "C11", "C14", "C15", "C16", "C17", "C20":
 		p.Modes = []Mode{seqMode(prop, 400, 12000)}
+		if prop == "C06" || prop == "C11" || prop == "C14" || prop == "C15" || prop == "C20" {
+			p.Modes = append(p.Modes, Mode{Name: "conc", Quick: 12, Deep: 300,
+				Run:    func(bin string, seed uint64) *RunReport { return runConcSample(bin, prop, seed, false) },
+				Replay: ReplayConc})
+		}
 		if prop == "C09" {
 			p.Modes = append(p.Modes, Mode{Name: "conc", Quick: 16, Deep: 400,
 				Run:    func(bin string, seed uint64) *RunReport { return runConcSample(bin, prop, seed, false) },
